@@ -41,7 +41,9 @@ Prev(r, n) == IF n = 1 THEN r.init ELSE r.steps[n - 1]
 Side(o, k) == IF k = 1 THEN o.o1 ELSE o.o2
 StepOK16(r, n) ==
   LET a == r.case.hist[n]  o == r.steps[n]  p == Prev(r, n) IN
-  CASE a.op = "clone" -> o.err = "none" /\ o.o2 = o.o1 /\ o.o1 = p.o1 /\ o.o2.pan = <<>>       \* (a Clone that panics is recorded in err)
+  \* (a Clone that panics is recorded in err; an accessor that panics on a faithful clone panics on the original too and is
+  \* C01's business: the two projections are compared as they are)
+  CASE a.op = "clone" -> o.err = "none" /\ o.o2 = o.o1 /\ o.o1 = p.o1
     [] a.op = "swap"  -> TRUE
     [] OTHER          -> Side(o, 3 - a.to) = Side(p, 3 - a.to)
 First16(r) == LET bad == {n \in DOMAIN r.steps : ~StepOK16(r, n)} IN
@@ -73,7 +75,10 @@ Clause01(r, n) == LET o == r.steps[n] IN
 LClass(l) == IF l = "No" THEN "No" ELSE "any"
 S0(r) == IF "l2" \in DOMAIN r.case THEN St0x(r.case.k, r.case.l, r.case.l2) ELSE St0(r.case.k, r.case.l)
 Verdict(r) ==
-  IF r.ev # "ok" THEN [ok |-> FALSE, sig |-> "geomops|" \o r.ev \o "|" \o r.case.k \o "|" \o LClass(r.case.l)
+  \* a whole case that hangs or crashes: C01 / C02 report it; for C16 only if the history contains nothing but clones (then
+  \* Clone is to blame) - a hang in Reverse or Push is not Clone's fault
+  IF r.ev # "ok" /\ MODE = "C16" /\ (\E n \in DOMAIN r.case.hist : r.case.hist[n].op # "clone") THEN [ok |-> TRUE]
+  ELSE IF r.ev # "ok" THEN [ok |-> FALSE, sig |-> "geomops|" \o r.ev \o "|" \o r.case.k \o "|" \o LClass(r.case.l)
                                               \o "|" \o r.case.hist[Len(r.case.hist)].op, step |-> 0]
   ELSE IF Len(r.steps) # Len(r.case.hist) THEN [ok |-> FALSE, sig |-> "geomops|short-trace", step |-> 0]
   ELSE CASE MODE = "C02" ->
